@@ -350,6 +350,7 @@ def run(ck, scratch):
             done.append([n, pr])
     ck.extra['traces_validated_against_impl'] = traces
     ck.extra['operations'] = names
+    ck.rule = ck.rule.replace('%d operations', '%d operations' % len(names))
     # ---- ensure_path rounds
     check_ensure_path(ck, scratch)
 
